@@ -1145,6 +1145,11 @@ class Builder:
         if params is None:
             params = self.gen_params(self.integer(0, self.size.get('max_params', 3)))
         info = FuncInfo(name, flavor, ret, params, recursive)
+        if ret == EMPTY and not recursive and tag is None and name != '@is_you' and self.chance(self.size.get('empty_body_pct', 5)):
+            # a literally empty body: only the implicit return keeps control from running into the next function
+            self.funcs.append(info)
+            self.func_nodes.append(Func(ret, name, params, Block([])))
+            return info
         old = (self.flavor, self.cur_ret, self.cur_func, self.scopes, self.loop_depth, self.in_try, self.preempts)
         self.flavor = flavor
         self.cur_ret = ret
@@ -1264,13 +1269,20 @@ class Builder:
     def gen_globals(self):
         n = self.integer(0, self.size['globals'])
         out = []
+        self.const_ints = {}        # const int globals with a known small value (usable in later global initialisers)
         for _ in range(n):
             if 'arrays' in self.F and self.chance(35):
                 el = self.weighted(self.array_el_types())
                 name = self.fresh('ga')
                 if self.chance(25):
                     ln = self.integer(0, self.size['arr_len'])
-                    out.append(ArrDecl(el, name, Lit('int', ln, None, t=INT)))
+                    small = [g for g, v in sorted(self.const_ints.items()) if 0 <= v <= self.size['arr_len']]
+                    if small and self.chance(40):
+                        gl = self.pick(small)
+                        ln = self.const_ints[gl]
+                        out.append(ArrDecl(el, name, Var(gl, t=INT)))
+                    else:
+                        out.append(ArrDecl(el, name, Lit('int', ln, None, t=INT)))
                     # contents unspecified until written: only used through fill-then-read helper
                     self.globals.append(VarInfo(name, arr(el, False), const=True, static_len=ln, is_global=True))
                     self.uninit_globals.append(name)
@@ -1279,7 +1291,10 @@ class Builder:
                 ln = self.integer(0 if self.chance(10) else 1, self.size['arr_len'])
                 elems = []
                 for _ in range(ln):
-                    if el == INT:
+                    if el == INT and self.const_ints and self.chance(25):
+                        # a global initialiser may mention earlier const globals (constant expression, no calls)
+                        elems.append(Var(self.pick(sorted(self.const_ints)), t=INT))
+                    elif el == INT:
                         elems.append(self.int_lit())
                     elif el == BYTE:
                         elems.append(self.byte_lit())
@@ -1296,6 +1311,24 @@ class Builder:
                 name = self.fresh('g')
                 if ty == INT:
                     init = self.int_lit()
+                    smallc = [g for g, v in sorted(self.const_ints.items()) if abs(v) < 1000]
+                    if smallc and self.chance(35):
+                        gref = self.pick(smallc)
+                        k = self.integer(0, 9)
+                        form = self.integer(0, 3)
+                        v0 = self.const_ints[gref]
+                        if form == 0:
+                            init, val = Var(gref, t=INT), v0
+                        elif form == 1:
+                            init, val = Bin('+', Var(gref, t=INT), Lit('int', k, None, t=INT), t=INT), v0 + k
+                        elif form == 2:
+                            init, val = Bin('*', Lit('int', k, None, t=INT), Var(gref, t=INT), t=INT), v0 * k
+                        else:
+                            init, val = Un('-', Var(gref, t=INT), t=INT), -v0
+                        if const:
+                            self.const_ints[name] = val
+                    elif const and isinstance(init, Lit) and abs(init.value) < 30000:
+                        self.const_ints[name] = init.value
                 elif ty == BYTE:
                     init = self.byte_lit()
                 elif ty == BOOL:
